@@ -544,7 +544,8 @@ Section Gen.
       eapply eff_seq with (n1 := n1) (b := Some 2); [exact L|lia|apply no_ext| |].
       + pose proof (eff_lift0 _ _ _ 0 1 1 Et) as X. cbn in X. exact X.
       + apply good_instr_tree; destruct op; reflexivity.
-    - apply cret_ok in H. destruct H as [E ->]. injection E as -> ->. split; [lia|].
+    - destruct (is_type_name (utf8_encode name)); [|discriminate H].
+      apply cret_ok in H. destruct H as [E ->]. injection E as -> ->. split; [lia|].
       exists (TSeq (TI (IPush (VIdent #"type"))) (TSeq (TI (ICall 1)) (TSeq (TI (IPush (VIdent (utf8_encode name)))) (TI IEq)))).
       split; [reflexivity|].
       eapply eff_seq with (n1 := n) (b := Some 2); [lia|lia|apply no_ext| |].
